@@ -75,6 +75,12 @@ claim('C11', 'reference-model monitor on Panel / PanelAssembly / StiffPanelBay f
       'assembly groups and bay skin/stiffener regions must use their own slice of the amplitude vector (stiffeners of all three kinds in mixed insertion order).',
       'ctypes basis functions (judged exactly by C10); PanelAssembly fields are evaluated on its default linspace grids', '4/C11')
 
+claim('C08', 'polynomial-exact differencing monitor on Panel/PanelAssembly calc_fint and calc_kT: 5-point stencil of the cubic internal force gives its directional derivative exactly; exact closed-path work',
+      'At generated deformed states (w up to 5 thicknesses, B-coupled/offset laminates, random flags, uniform and per-point tables, plate and cylindrical models, assemblies with all five '
+      'connection kinds in shuffled order) the monitor checks fint(0)=0, the linear coefficient of t->fint(t c) equals K0 c, kT(c) dc equals the exact stencil derivative of fint for several '
+      'directions, kT symmetric, kT(0)=K0, zero work around random closed polygons (exact Gauss per edge), consistency of the discretised pair at reduced Gauss orders, and that the assembly adds k0_conn*c.',
+      'fint is a cubic polynomial of the amplitudes (verified per case by comparing stencils at h and h/2)', '4/C08')
+
 ALL = ['C%02d' % i for i in range(1, 21)]
 PENDING_REASON = 'check not built yet in this round (runtime-monitoring plan in DESIGN.md section 4); will be claimed once its monitor runs silent on the unchanged tree'
 
